@@ -74,6 +74,7 @@ def gen_case(r, i=0):
             line = "[%s]: %s%s" % (lab, url, (' "%s"' % title) if title else "")
             if "\n" in lab:
                 place = "top" if place in ("quote", "quote-list", "deep", "deep6") else place
+                defs[j][3] = place  # (the recorded placement is what collection_order reads)
             if place == "top":
                 out.append(line.replace("\n", "\n") + "\n")
             elif place == "quote":
